@@ -37,6 +37,10 @@ CLAIMED = {
     "C04": ("4 C04", "Ap and Map are executed on result lists with symbolic centre distances, thresholds, confidences (all rankings "
             "by forks for N<=3) and heading weights; on every path z3 compares the returned AP/APH/mAP with an independent "
             "interpolated-PR-area term and decides the [0,1], APH<=AP and extreme-case claims."),
+    "C05": ("4 C05", "CLEAR is executed on arbitrary (previous, current) frame pairs with symbolic track ids, scores and threshold: "
+            "z3 decides per path that TP/FP/switch counts, score sums and the MOTA/MOTP formulas equal the definitions; an "
+            "accumulator obligation shows CLEAR over F frames is the sum of pair values, so the pair step covers every history "
+            "length for per-frame sizes within the bound; renaming invariance is a relational query."),
 }
 NA = {
     "C16": "dataset loading goes through the nuScenes devkit and file I/O; a symbolic stand-in for the devkit would be the "
